@@ -593,6 +593,8 @@ def run_instance(inst, max_exec=200000, bound=None, want=("C04", "C05", "C06", "
             if prop in want:
                 viols.setdefault(f"{prop}|{code}|{inst.family}", (f"{inst.text}: {what}", script))
     stats["capped"] = bool(explore.capped) or timed_out
+    # what is fully covered below a cap: every execution with at most this many deviations from the default answers
+    stats["completed_deviation_bound"] = (explore.current_bound - 1) if timed_out else explore.completed_bound if explore.capped else None
     stats["outcomes"] = len(dist)
     stats["draw_counts"] = sorted(ndraws_seen)
 
